@@ -44,8 +44,8 @@ KaXonlyTweakAdd(Q, t32) == KaPubTweakAdd(KaEven(Q), t32)
 \* secp256k1_keypair_xonly_tweak_add on the keypair of d: the secret key of the tweaked x-only key
 KaKeypairTweakAdd(d, t32) == KaSecTweakAdd(KaSecEven(d), t32)
 \* secp256k1_xonly_pubkey_tweak_add_check: accepts exactly the (x, parity) the tweak produces
-KaTweakAddCheck(ox32, par, Q, t32) ==
-  LET r == KaXonlyTweakAdd(Q, t32) IN r[1] /\ X32(r[2]) = ox32 /\ KaParity(r[2]) = par
+KaTweakAddCheckR(ox32, par, r) == r[1] /\ X32(r[2]) = ox32 /\ KaParity(r[2]) = par      \* r = the result of the tweak
+KaTweakAddCheck(ox32, par, Q, t32) == KaTweakAddCheckR(ox32, par, KaXonlyTweakAdd(Q, t32))
 
 \* ---- order of public keys: lexicographic order of the 33-byte compressed encodings (-1, 0, 1)
 KaCmp(Qa, Qb) == LexCmp(Ser33(Qa), Ser33(Qb)) - 1
